@@ -302,3 +302,7 @@ class C06(core.Prop):
 
 
 PROP = C06()
+
+# shape families added after the first complete pass (DESIGN 8.6-8.11); appended to the bounds written into the evidence
+BOUNDS_ADDED = "; plus templates: sibling branches, shared nodes on one or two levels, names re-used across levels, '<' half first, legacy=False where unambiguous; stored fragment graphs compared with the induced sub-graph at every step"
+PROP.BOUNDS = {k: v + BOUNDS_ADDED for k, v in PROP.BOUNDS.items()}
